@@ -63,7 +63,7 @@ def plan(tier, seed):
 
 def mandatory(tier):
     out = [f"class/{n}" for n in X.ALL] + [f"kind/{k}" for k in X.KINDS] + ["groups/1", "groups/N"]
-    out += ["fresh_identity", "non_identity", "forward/grid_flag/finer_grid/nonzero_boundary", "disp/own", "disp/own_other_flag", "disp/resized", "disp/other_domain", "transform_grid/fractional_internal_size", "image/padding=constant", "points/world", "pointset_transformer", "sequential", "multilevel", "generic", "image/equal", "image/same_domain", "image/other_domain", "image/other_domain_default_source", "after_data_", "matrix"]
+    out += ["fresh_identity", "non_identity", "forward/grid_flag/finer_grid/nonzero_boundary", "disp/own", "disp/own_other_flag", "disp/resized", "disp/other_domain", "transform_grid/fractional_internal_size", "image/padding=constant", "points/world", "pointset_transformer", "sequential", "multilevel", "generic", "image/equal", "image/same_domain", "image/same_cube_other_flag", "image/other_domain", "image/other_domain_default_source", "after_data_", "matrix"]
     return out
 
 
@@ -333,7 +333,7 @@ def case(ctx, i):
             ugf = np.moveaxis((ml(xg, grid=True) - xg).double().numpy(), -1, 1)
         ctx.close("multilevel_grid_flag_adds_displacements", ugf, ug, TOL, key=f"multilevel/grid_flag/{'linear' if ml.linear else 'nonrigid'}", second=n2, **info)
     # ---------------- image warping
-    for rel in ("equal", "same_domain", "other_domain", "other_domain_default_source"):
+    for rel in ("equal", "same_domain", "same_cube_other_flag", "other_domain", "other_domain_default_source"):
         with ctx.guard("ImageTransformer", key=f"exc/image/{rel}", relation=rel, **info):
             ctx.bucket(f"image/{rel}")
             if rel == "equal":
@@ -342,6 +342,11 @@ def case(ctx, i):
                 # source omitted: documented default is the target grid (the image lives on the output grid)
                 _, target = other_domain_grid(rng, gref, D)
                 source = target
+            elif rel == "same_cube_other_flag":
+                # target and source cover the cube of the transform grid but carry the other align_corners flag: their
+                # samples lie elsewhere (corners on the cube boundary vs half a sample inside)
+                target = g.cube().grid(size=tuple(int(rng.integers(max(4, k // 2), 2 * k)) for k in g.size()), align_corners=not g.align_corners())
+                source = g.cube().grid(size=tuple(int(rng.integers(max(5, k // 2 + 2), 2 * k)) for k in g.size()), align_corners=not g.align_corners())
             elif rel == "same_domain":
                 target = g.resize(tuple(int(rng.integers(max(4, k // 2), 2 * k)) for k in g.size()))
                 source = g.resize(tuple(int(rng.integers(max(5, k // 2 + 2), 2 * k)) for k in g.size()))
